@@ -611,7 +611,7 @@ func runLegacyTests(res *hx.Result, r *hx.Rand, nVariations int, verbose bool) {
 	tests, err := loadLegacyTests()
 	if err != nil {
 		res.OracleChecks++
-		res.Fail("legacy-tests:unreadable", nil, err.Error())
+		failc(res, "legacy-tests:unreadable", nil, err.Error())
 		return
 	}
 	recorded := len(tests)
@@ -690,7 +690,7 @@ func runLegacyTests(res *hx.Result, r *hx.Rand, nVariations int, verbose bool) {
 				fmt.Printf("LEGACYTEST %-44s %-50q legacy %-28q new %q\n", cls, p.Expr, p.Legacy, p.Got)
 			}
 			m, _, _ := migrateReal("@("+p.Expr+")", options{})
-			res.Fail(cls, map[string]any{"template": "@(" + p.Expr + ")", "legacy_tests_entry": idx},
+			failc(res, cls, map[string]any{"template": "@(" + p.Expr + ")", "legacy_tests_entry": idx},
 				fmt.Sprintf("%s %d: legacy %q is %q; migrated %q evaluates to %q", origin, idx, p.Expr, p.Legacy, m, p.Got))
 		}
 	}
